@@ -16,7 +16,7 @@ import (
 func init() {
 	eng.Register(&eng.Check{
 		ID: "C19",
-		Rule: "E2: every parser-produced tree of the C16 spaces (all trees of depth<=2 over 3 leaves, depth 3 over 2 [thorough 3] leaves, every operator x selector spelling x literal incl. ones needing %q escapes) x indent in {\"\", \" \", TAB, 3 blanks} x start level in {0,1,3}: ExpressionDump output is byte-equal to an independent reference renderer written from the documented format (pre-order, one block per node, one indent level per tree level, operator names, ALL/ANY + binding, dotted vs slash-joined selector, quoted literal only for equality/membership), no panic, two renders identical; plus Selector.String on constructed selectors of each type with 0..3 parts. Distinct by construction; non-trivial = tree with >=2 nodes or a literal needing escapes.",
+		Rule: "E2: every parser-produced tree of the C16 spaces (all trees of depth<=2 over 3 leaves, depth 3 over 2 [thorough 3] leaves, every operator x selector spelling x literal incl. ones needing %q escapes) x indent in {\"\", \" \", TAB, 3 blanks, \"%s\", \"%\"} x start level in {0,1,3}: ExpressionDump output is byte-equal to an independent reference renderer written from the documented format (pre-order, one block per node, one indent level per tree level, operator names, ALL/ANY + binding, dotted vs slash-joined selector, quoted literal only for equality/membership), no panic, two renders identical; plus Selector.String on constructed selectors of each type with 0..3 parts. Distinct by construction; non-trivial = tree with >=2 nodes or a literal needing escapes.",
 		Assumptions: []string{"reference renderer reads the tree's fields only (never calls the String/Dump methods under test); %q is Go's strconv.Quote"},
 		Run:         runC19,
 	})
@@ -91,7 +91,7 @@ func dumpSafe(e grammar.Expression, indent string, level int) (s string, pan str
 }
 
 func runC19(c *eng.Ctx) {
-	indents := []string{"", " ", "\t", "   "}
+	indents := []string{"", " ", "\t", "   ", "%s", "%"}
 	levels := []int{0, 1, 3}
 	unit := 0
 	checkSrc := func(src string, nontrivial bool) {
@@ -155,7 +155,7 @@ func runC19(c *eng.Ctx) {
 		checkSrc(src, countNodes(t) >= 2)
 	}
 	// leaves: every operator x spelling x literal (escapes)
-	paths := [][]string{{"a"}, {"a", "b"}, {"a", "0", "c"}, {"a", "b c"}, {"a/b", "é"}, {"a", "x.y", ""}}
+	paths := [][]string{{"a"}, {"a", "b"}, {"a", "0", "c"}, {"a", "b c"}, {"a/b", "é"}, {"a", "x.y", ""}, {"a", "cpu%"}, {"a", "%s", "%d"}}
 	litsL := []string{"1", "-1.5", "abc", "a b", "", "/a/b", "é\"", "`", "\n\t", "\x00\x7f", "\\", "日本", " "}
 	for op := 0; op < 8; op++ {
 		for _, path := range paths {
